@@ -93,7 +93,15 @@ func genCase(prop string) func(t *rapid.T) mcase {
 		c := mcase{Prop: prop}
 		c.Kind = rapid.IntRange(0, 3).Draw(t, "kind")
 		c.Dir = rapid.IntRange(0, 1).Draw(t, "dir")
-		c.Asym = rapid.SampledFrom([]int{0, 1, 1, 2, 2}).Draw(t, "asym")
+		// asymmetric identifiers: with natural per-chain numbering one of the two asymmetric layouts makes an
+		// identifier of the sibling channel on the proof chain coincide with the id the message names for the
+		// other chain (C05: sibling source id == destination id; C06: sibling destination id == source id) --
+		// the layout in which a "verified under the wrong key" defect becomes an acceptance. Prefer it.
+		match := 1 + ((c.Kind & 1) ^ c.Dir ^ 1)
+		if prop == "C06" {
+			match = 3 - match
+		}
+		c.Asym = rapid.SampledFrom([]int{0, match, match, match, 3 - match}).Draw(t, "asym")
 		v2 := c.Kind >= 2
 		n := rapid.IntRange(5, 7).Draw(t, "npk")
 		for j := 0; j < n; j++ {
@@ -130,9 +138,9 @@ func genCase(prop string) func(t *rapid.T) mcase {
 			}
 			c.Pk = append(c.Pk, sp)
 		}
-		c.NSib = rapid.IntRange(1, n).Draw(t, "nsib")
+		c.NSib = rapid.IntRange(n-2, n).Draw(t, "nsib")
 		if prop == "C05" {
-			c.Done = rapid.IntRange(1, 2).Draw(t, "done")
+			c.Done = rapid.SampledFrom([]int{0, 0, 1, 2}).Draw(t, "done")
 		} else {
 			c.Done = rapid.IntRange(0, 1).Draw(t, "done")
 		}
@@ -145,7 +153,7 @@ func genCase(prop string) func(t *rapid.T) mcase {
 			})
 		}
 		cat := catalogue(prop, c.Kind)
-		nt := rapid.IntRange(1, 4).Draw(t, "ntrials")
+		nt := rapid.IntRange(2, 5).Draw(t, "ntrials")
 		for i := 0; i < nt; i++ {
 			tr := trial{Pick: rapid.IntRange(0, 5).Draw(t, "pick"), Sig: rapid.IntRange(0, 2).Draw(t, "sig")}
 			nm := rapid.IntRange(1, 3).Draw(t, "nmuts")
